@@ -619,6 +619,49 @@ pub fn check_case(c: &SwitchCase, ctx: &mut Ctx) {
         }
         out.insert(v, r);
     }
+    // a settings object that has already been used, cloned, with ONE field flipped, must generate what fresh
+    // settings with that field generate (nothing computed under the old value may be carried along)
+    for v in vertices.iter().copied() {
+        if v.alloc != 0 || v.root != 0 || v.docs != 0 {
+            continue;
+        }
+        let used = v.spec().build();
+        ctx.exec(1);
+        let _ = generate(&reg, &used);
+        for (d, (dname, n)) in DIMS.iter().enumerate() {
+            if !matches!(*dname, "alloc" | "root" | "docs" | "codec") {
+                continue;
+            }
+            for k in 1..*n {
+                if k == v.get(d) {
+                    continue;
+                }
+                let w = v.set(d, k);
+                let Some(Ok(fresh)) = out.get(&w) else { continue };
+                let target = w.spec().build();
+                let mut reused = used.clone();
+                match *dname {
+                    "alloc" => reused.alloc_crate_path = target.alloc_crate_path.clone(),
+                    "root" => reused.types_mod_ident = target.types_mod_ident.clone(),
+                    "docs" => reused.should_gen_docs = target.should_gen_docs,
+                    _ => reused.insert_codec_attributes = target.insert_codec_attributes,
+                }
+                ctx.exec(1);
+                let got = match generate(&reg, &reused) {
+                    GenOutcome::Ok { tokens } => squash(&tokens),
+                    other => format!("{other:?}"),
+                };
+                if got != squash(fresh) {
+                    ctx.violation(
+                        format!("C09/reused-settings/{dname}"),
+                        format!("settings used once at {v:?}, cloned, `{dname}` set as in {w:?}: the output differs from what fresh settings give"),
+                        replay(&w),
+                        c.prog.to_source().len(),
+                    );
+                }
+            }
+        }
+    }
     // edges
     let size = c.prog.to_source().len();
     for v in vertices.iter().copied() {
